@@ -37,3 +37,30 @@ contract(f"{MT}.check_and_delete_time_validity", props=["C12"], mode="int", spec
          ensures={"exactly_the_expired_records_are_removed": "len(ghost('stored')) == 1 and [r for r in ghost('stored')[0] if expired(r)] == list(ghost('removed'))",
                   "and_reported": "list(result) == list(ghost('removed'))"},
          cover=["len(ghost('removed')) == 2", "len(ghost('removed')) == 0"])
+
+
+# ------------------------------------------------------------------------------------------- registries, removal
+SVQ = f"{LDM}.ldm_service:LDMService"
+contract(f"{SVQ}.__init__", props=["C12", "C16"], mode="int", spec_module="spec_ldm", frame_check=False,
+         shapes={"self": T.obj(SVQ), "ldm_maintenance": T.opaque("object")}, modifies=["self.*"],
+         ensures={"provider_and_consumer_registries_are_separate_and_empty": "self.data_provider_its_aid is not self.data_consumer_its_aid and len(self.data_provider_its_aid) == 0 and len(self.data_consumer_its_aid) == 0",
+                  "no_subscriptions": "len(self.subscriptions) == 0 and self.subscriptions is not self.last_checked_subscriptions_time",
+                  "maintenance_kept": "self.ldm_maintenance is ldm_maintenance"})
+
+DBQ = f"{LDM}.dictionary_database:DictionaryDataBase"
+_REC = T.dict(applicationId=T.int(0, 3), timeStamp=T.int(0, 3))
+
+
+def _store(keys):
+    return T.dictk({k: _REC for k in keys})
+
+
+contract(f"{DBQ}.remove", props=["C12", "C16", "C13"], mode="int", spec_module="spec_ldm", frame_check=False,
+         bound="stores of 0..3 records under representative identifier sets with holes ({}, {0}, {2}, {0,1}, {1,3}, {0,2,5})",
+         shapes={"self": T.obj(DBQ, database=T.oneof(_store([]), _store([0]), _store([2]), _store([0, 1]), _store([1, 3]), _store([0, 2, 5])),
+                               _lock=T.opaque("rlock"), _next_id=T.int(0)), "data_object": _REC},
+         modifies=["self.database"],
+         ensures={"removes_exactly_the_first_stored_record_equal_to_the_given_one": "removed_keys(self) == ([first_equal_key(self, data_object)] if first_equal_key(self, data_object) is not None else [])",
+                  "every_other_record_stays_under_its_identifier": "all(self.database[k] is old_value(self, k) for k in self.database)",
+                  "reports_whether_something_was_removed": "result == (first_equal_key(self, data_object) is not None)"},
+         cover=["result", "not result"])
